@@ -400,11 +400,18 @@ class Prop(fw.PropBase):
         self.case_list, self.impl_res = cases, res
         inputs, impl_out, index = [], [], []
         nontrivial, hist_n, hist_reg = set(), {}, {}
-        n_ejecting = n_multi = n_pre = n_err = 0
+        n_ejecting = n_multi = n_pre = n_err = n_pool_differ = 0
+        pool_example = None
         pre_inputs = []
         for ci, (case, r) in enumerate(zip(cases, res)):
             absf = r['abs']
             hist_n[len(absf)] = hist_n.get(len(absf), 0) + 1
+            never = {cfg['pooling']: partition(run) for cfg, run in zip(case['cfgs'], r['runs']) if cfg['every'] is None}
+            if len(never) == 2 and never[0] != never[1]:
+                n_pool_differ += 1
+                if pool_example is None or len(absf) < len(pool_example['abs']):
+                    pool_example = {'abs': absf, 'cfg': case['cfgs'][0], 'pooling0': [list(x) for x in never[0]],
+                                    'pooling1': [list(x) for x in never[1]]}
             for cfg, run in zip(case['cfgs'], r['runs']):
                 inp = [cfg_val(cfg), fw.to_val(absf)]
                 inputs.append(inp)
@@ -430,11 +437,14 @@ class Prop(fw.PropBase):
             'libraries': len(cases), 'corpus_libraries': self.n_corpus, 'exhaustive_small_libraries': self.n_exhaustive,
             'runs_with_ejection_before_flush': n_ejecting, 'runs_with_multi_fragment_molecule': n_multi,
             'runs_raising': n_err,
+            'info_libraries_where_pooling_0_and_1_differ_without_ejection': n_pool_differ,
+            'info_pooling_difference_example': pool_example,
             'precondition_hit_rate': round(n_pre / max(1, len(inputs)), 4),
             'library_size_histogram': {str(k): v for k, v in sorted(hist_n.items())},
             'schedules': 'every library is run for check_eject_every in {None, 0..n} x pooling_method {0,1} (all schedules '
                          'that differ for n fragments)',
-            'exhaustive': 'all libraries of <= %d single-end fragments over {gap 0|23} x {length 2|12} x {umi AAA|CCC}, '
+            'exhaustive': False,
+            'exhaustive_scope': 'all libraries of <= %d single-end fragments over {gap 0|23} x {length 2|12} x {umi AAA|CCC}, '
                           'cache 40, every schedule, both pooling methods' % (3 if self.tier == 'quick' else 4),
             'samples': [{'input': {'cfg': index[i][1], 'abs': res[index[i][0]]['abs']}, 'impl': impl_out[i]}
                         for i in (0, len(inputs) // 2, len(inputs) - 1) if i < len(inputs)],
@@ -596,3 +606,30 @@ def _shrink(self, case, cfg, key):
 
 Prop.search = _search
 Prop.shrink = _shrink
+
+
+def _replay(self, data):
+    """re-run the recorded failing input on the implementation under $SCMO_REPO (all schedules) and evaluate the
+    specification on it; exit 1 while it still fails"""
+    w = data.get('witness')
+    if not w or not isinstance(w.get('input'), dict) or 'frags' not in w['input']:
+        return fw.PropBase.replay(self, data)
+    inp = w['input']
+    base = {k: inp['cfg'][k] for k in ('cache', 'radius', 'hd', 'yield_invalid')}
+    case = {'frags': inp['frags'], 'cls': inp['cls'], 'cfgs': Prop.all_schedules(base, len(inp['frags']))}
+    r = self.run_impl_cases([case])[0]
+    print('recorded: %s' % w.get('what'))
+    print('fragments (id valid sample strand contig start end umi hash): %s' % json.dumps(r['abs']))
+    for cfg, run in zip(case['cfgs'], r['runs']):
+        print('  pooling_method=%d check_eject_every=%-4s -> %s%s' % (
+            cfg['pooling'], cfg['every'], [list(x) for x in partition(run)],
+            '  ERROR ' + run['error'] if run['error'] else ''))
+    v = spec_violations(case, r)
+    for key, text, cfg in v[:5]:
+        print('VIOLATION property=C07 %s: %s' % (key, text))
+    if not v:
+        print('C07 replay: the recorded input no longer violates the specification on %s' % fw.REPO)
+    return 1 if v else 0
+
+
+Prop.replay = _replay
